@@ -1,5 +1,5 @@
 """C03 - loading builds exactly the documented object, through every entry point (structural clauses)."""
-from ..rules import entry, fwd, readers, serial, state
+from ..rules import entry, fwd, readers, serial, state, baseline
 from ..rules.callgraph import callgraph
 
 EXPLANATION = (
@@ -58,6 +58,9 @@ sweep.thorough_only = True
 def c8(ctx):
     state.shared_state(ctx, ["simfile:open", "simfile:load", "simfile:loads", "simfile:open_with_detected_encoding", "simfile:opendir", "simfile:openpack", "simfile:mutate"], "what a loader builds depends on its arguments only")
 
+def c_api(ctx):
+    baseline.surface(ctx, "C03: documented surface", modules=['simfile.sm', 'simfile.ssc', 'simfile.base'], functions=['simfile:load', 'simfile:loads', 'simfile:open', 'simfile:open_with_detected_encoding', 'simfile:opendir', 'simfile:openpack', 'simfile:mutate'], keys=['simfile.ENCODINGS', 'simfile.__all__'])
+
 CLAUSES = [
     ("C03.1", "keys upper-cased in every reader (R-KEYNORM)", c1),
     ("C03.2-3", "first vs. all components; six trimmed fields or ValueError; SSC chart opening", c2),
@@ -67,4 +70,5 @@ CLAUSES = [
     ("C03.7", "one funnel to the tokenizer", c7),
     ("C03.sweep", "package-wide option forwarding (thorough)", sweep),
     ("C03.8", "no process-wide state behind the loaders (module tables such as ENCODINGS are never changed at run time) (R-STATE)", c8),
+    ("C03.api", "public surface: signatures and defaults, constants, enumerations, blank templates, base classes as confirmed (R-API)", c_api),
 ]
